@@ -55,7 +55,7 @@ def run_case(spec):
         expected = tuple(exp)
     dp = DilatedPair(world, expected=expected)
     drv = ScriptDriver(dp, rng, names=names, max_opens=4, max_writes=25, sizes=(1, 10, 300, 20000), late_listen=0.5,
-                       half=spec["half"], close_prob=1.0, listen_names=listen_names)
+                       half=spec["half"], close_prob=1.0, listen_names=listen_names, reactive=rng.choice([0, 0, 6, 14]))
     late_listens = sum(len(v) for v in drv.pending_listen.values())
     # writes attempted right after a local close, while records of the peer may still be on their way
     early_wac = []
@@ -218,6 +218,10 @@ def run_case(spec):
                 xk = [e[0] for e in x.events]
                 if not isinstance(x, HalfRecProto) and not isinstance(y, HalfRecProto) and "lost" not in xk:
                     viol.append({"key": "C13/closer-never-gets-connectionLost", "msg": "%s closed, saw %s" % (x.name, xk[-3:]), "witness": wit()})
+    for (name_, err) in drv.late_write_results:
+        if err is None:
+            viol.append({"key": "C13/write-after-close-accepted", "msg": "%s: write() from inside connectionLost did not raise" % name_, "witness": wit()})
+            break
     for (name_, err, tail, age) in early_wac:
         if err is None:
             viol.append({"key": "C13/write-after-close-accepted", "msg": "%s: write() %d steps after the local close did not raise (events %s)" % (name_, age, tail), "witness": wit()})
@@ -236,7 +240,7 @@ def run_case(spec):
     nontrivial = trace_digest(sch) if (nsub and closes) else None
     benign = {"CloseForMissingSubchannelError", "DataForMissingSubchannelError"}
     return {"violations": viol, "nontrivial": nontrivial,
-            "counters": {"subchannels": nsub, "closes": closes, "writes_after_close": writes_after_close, "writes_right_after_close": len(early_wac), "undeclared_opens": undeclared,
+            "counters": {"subchannels": nsub, "closes": closes, "writes_after_close": writes_after_close, "writes_right_after_close": len(early_wac), "calls_from_inside_protocol_callbacks": drv.reactions_done, "undeclared_opens": undeclared,
                          "late_listens": late_listens, "half_protocols": sum(isinstance(p, HalfRecProto) for p in all_protos),
                          "opens": len(drv.opens), "notrans_seen": len(MON.notrans)},
             "sets": {"write_after_close_errors": sorted({e for (_, e, _) in wac_errors if e} | {e[1] for e in early_wac if e[1]}),
